@@ -26,6 +26,12 @@ type Standin struct {
 }
 
 var propStandins = map[string][]Standin{
+	"C02": {{
+		Name: "search-oracle", Pkg: "internal/index", TestFile: "search_standin_test.go", TestName: "TestC02Standin", OutEnv: "C02_OUT",
+		EnvQuick: []string{"C02_ROUNDS=40", "C02_QUERIES=60"}, EnvThorough: []string{"C02_ROUNDS=300", "C02_QUERIES=100"},
+		Bound:   "the search pipeline as a whole (parser, normal form, per-index filters and lookups, scan strategies, sorted limited accumulator, paging): 40 (quick) / 300 (thorough) seeded populations of up to 9 stream ids spread over 1-3 index files with shadowed older versions (IPv4 and IPv6 hosts, 5 ports, 0-3 payload chunks in either direction, TCP/UDP), each with 60 / 100 generated queries of depth <= 3 over id/port/bytes/host(/mask)/protocol/time/data filters with AND, OR, NOT, value lists and ranges, 0-2 sort keys, limits {0,1,2,3,5,100} and pages; the result (ids, each once, newest version, order, page, more-flag) is compared with a direct evaluation of the query on the visible streams. Not generated: THEN sequences, sub-queries, variables, tags, converters, grouping, doubly negated value lists (their normal form takes hours)",
+		Timeout: 30 * time.Minute,
+	}},
 	"C17": {{
 		Name: "set-model", Pkg: "internal/tools/bitmask", TestFile: "bitmask_standin_test.go", TestName: "TestC17Standin", OutEnv: "C17_OUT",
 		EnvQuick: []string{"C17_LEN=2", "C17_RANDOM=20000"}, EnvThorough: []string{"C17_LEN=3", "C17_RANDOM=200000"},
